@@ -140,6 +140,11 @@ def quick_extra_cfgs():
         ('draw-hu-reduced-lattice', C.nt((3, 5), game='NoLimitDeuceToSevenLowballSingleDraw'), {'raises': 'minmax', 'discards': ('none', 'first')}),
         ('triple-draw-hu-reduced-lattice', C.fl((3, 6), game='FixedLimitDeuceToSevenLowballTripleDraw'), {'discards': ('none', 'first'), 'fold': False}),
         ('stud-hu-reduced-lattice', C.stud((3, 6)), {}),
+        # everybody all-in on the forced bets: no decision before the run-out, the streets follow each other inside one cascade
+        ('all-in-on-the-blinds-reduced-lattice', C.nt((1, 5)), {}),
+        ('all-in-on-the-blinds-reduced-lattice', C.nt((5, 1)), {}),
+        ('all-in-on-the-blinds-reduced-lattice', C.nt((2, 1, 5), antes=1), {}),
+        ('all-in-on-the-blinds-reduced-lattice', C.nt((1, 5), mode='cash'), {'runouts': (None, 2)}),
         # forced bets that only some seats owe: a big-blind ante heads-up (seat 0 alone), a single seat's ante, a button ante,
         # a straddle and a late-seat post
         ('forced-bet-layouts-reduced-lattice', C.nt((5, 6), antes={1: 2}), {'raises': 'min'}),
@@ -177,7 +182,19 @@ def jobs(tier, seed):
 
 
 def run_job(job):
-    r, ctx = sx.run(job, [TwinMonitor('C09')], validated='pairs_compared')
+    def build_failed(exc, ctx):
+        # a state that cannot even be created with these automations, while the un-automated one can: the automated hand does
+        # not go through the steps the manual one does
+        from ..explore import exc_signature
+        try:
+            C.build(dict(job['cfg'], autos='NONE'))
+        except Exception:
+            raise RuntimeError(f'configuration builds neither automated nor manual: {C.describe(job["cfg"])}') from exc
+        sig = exc_signature(exc)
+        ctx.violation('automated-construction-raised', f'creating the state with automations {job["cfg"]["autos"]} raised '
+                      f'{type(exc).__name__}: {exc} at {sig[1]}: {sig[2]}; without automation it is created and played by hand',
+                      path=[], sig=('C09', 'construction-raised') + sig)
+    r, ctx = sx.run(job, [TwinMonitor('C09')], validated='pairs_compared', on_build_error=build_failed)
     return r
 
 
